@@ -85,6 +85,10 @@ def shapes(tier, seed):
             for spec in SINGLE:
                 out.append({'h': 'ops', 'impl': impl, 'maxdata': md, 'ops': [spec], 'cuts': 0, 'reorder': True})
             out.append({'h': 'ops', 'impl': impl, 'maxdata': md, 'ops': ['reboot', 'shell'], 'cuts': 0})
+            # a single sync request around / beyond the device's maxdata (8-byte header + path): still one WRTE at a time
+            for pl in (md - 9, md - 8, md - 7, md + 5):
+                out.append({'h': 'ops', 'impl': impl, 'maxdata': md, 'ops': [['stat', {'path_len': pl}]], 'cuts': 0})
+            out.append({'h': 'ops', 'impl': impl, 'maxdata': md, 'ops': [['list', {'path_len': md + 5, 'names': [1]}]], 'cuts': 0})
             # multi-WRTE pushes (chunk = maxdata/2)
             for size in (md + 100, 3 * md):
                 if size > 300000 and q:
